@@ -7,7 +7,8 @@
           `bad multi` when only all repairs together do, `bad unclassified` otherwise.
           A disagreement of the tree configuration INSIDE a fragment of Spec/TypeCheckFrag.lean is never filed
           under a known finding: `bad f1-theorem-violated` (fragment F1: machine = specification is proved, so
-          this means model and real code differ) / `bad f2-conjecture-violated` (fragment F2: conjectured).
+          this means model and real code differ) / `bad f2-theorem-violated` (fragment F2: proved too,
+          `machine_eq_conforms_F2`, Props/C08F2.lean).
           A FALSE REJECT (oracle accepts, implementation does not) of the tree configuration on a well-formed
           specification (`Frag.wfSpec`, Spec/TypeCheckWF.lean) contradicts the completeness theorem `machine_complete`
           (all specifications, disjunctions included): `bad completeness-theorem-violated`, never a known finding.
@@ -83,10 +84,10 @@ def judge (line impl : String) : String :=
     if got == want then "ok"
     else if cfgOf c.tag == Fix.tree && Frag.inF1 c.ctx c.chk then
       s!"bad f1-theorem-violated oracle={want} impl={got}"
+    else if cfgOf c.tag == Fix.tree && Frag.inF2 c.ctx c.chk then
+      s!"bad f2-theorem-violated oracle={want} impl={got}"
     else if cfgOf c.tag == Fix.tree && want == "accept" && Frag.wfSpec c.ctx c.chk then
       s!"bad completeness-theorem-violated oracle={want} impl={got}"
-    else if cfgOf c.tag == Fix.tree && Frag.inF2 c.ctx c.chk then
-      s!"bad f2-conjecture-violated oracle={want} impl={got}"
     else s!"bad {classify c want} oracle={want} impl={got}"
 
 def gen (seed n : Nat) (tier : String) (emit : String → IO Unit) : IO Unit := do
